@@ -114,6 +114,18 @@ def main(tier, seed, only=None):
                 c['data'] = re.tolist(); c['data_im'] = im.tolist(); c['layout'] = rng.choice(['C', 'F'])
                 rep.count('complex coefficients', nm)
                 cases.append(c)
+    if only is None or 'hyperu' in names:
+        # terminating series: hyperu(-n, b, x) is a polynomial of degree n; expanded exactly where one of its derivatives of order >= 2
+        # VANISHES (second derivative of U(-3,b,.) at b+2, third of U(-4,b,.) at b+3, first of U(-2,b,.) at b+1) the generic Faa-di-Bruno
+        # helper meets an exactly zero derivative in the middle of its loop
+        for a, b, x0 in [(-3, 0.5, 2.5), (-3, 1.5, 3.5), (-4, 0.5, 3.5), (-4, 2.0, 5.0), (-2, 0.5, 1.5), (-3, 2.0, 4.0), (-5, 0.5, 4.5)]:
+            for D in (4, 5, 6):
+                P = rng.randint(1, 2)
+                data = numpy.zeros((D, P, 2))
+                for idx in numpy.ndindex(*data.shape):
+                    data[idx] = x0 if idx[0] == 0 else rng.choice([-1.5, -0.75, 0.5, 1.0, 1.25, 2.0])
+                rep.count('terminating series', 'hyperu(%d, %s, .) at %s' % (a, b, x0))
+                cases.append(dict(fn='hyperu', prm=dict(a=a, b=b), D=D, P=P, shape=[2], pattern='dense', route=rng.choice(['special', 'classmethod']), data=data.tolist(), layout='C'))
     run_and_judge(rep, algopy, cases)
     return rep.finish()
 
